@@ -99,4 +99,12 @@ def baselineKey : List Seg → List Seg
   | [s] => [s]
   | s :: rest => if s = dot then rest else s :: rest
 
+/-- `baseline_key` in a run started below the project root (fix: keys are project-relative):
+    `below` is the working directory relative to the project root (empty at the root); the walked
+    path is relative to the working directory -/
+def baselineKeyAt (below : List Seg) (walked : List Seg) : List Seg :=
+  if below.isEmpty then baselineKey walked
+  else if baselineKey walked = [dot] then below
+  else below ++ baselineKey walked
+
 end SlocModel.PathSpelling
